@@ -38,7 +38,7 @@ theorem node_flag : ∀ (n : Node) (cwd : String) (r : Bool), flagAll r (flat w 
   | .command ws rs, cwd, r => by
     simp [flat, cmdWords_flag (mkCmdCtxS w.hasHandler w.simpleSafe ws) ws 0 cwd r, redirects_flag rs cwd r, Atom.flagOk]
   | .pipeline cmds, cwd, r => by simp [flat, nodes_flag cmds cwd r]
-  | .list parts, cwd, r => by simp [flat, listParts_flag parts _ r]
+  | .list parts, cwd, r => by simp [flat, listPartsCd_flag parts _ _ r]
   | .ifN c t e rs, cwd, r => by
     simp [flat, node_flag c cwd r, node_flag t cwd r, optNode_flag e cwd r, redirects_flag rs cwd r]
   | .whileN _ c b rs, cwd, r => by simp [flat, node_flag c cwd r, node_flag b cwd r, redirects_flag rs cwd r]
@@ -73,6 +73,14 @@ theorem listParts_flag : ∀ (ns : List Node) (cwd : String) (r : Bool), flagAll
     split
     · exact listParts_flag ns cwd r
     · simp [node_flag n cwd r, listParts_flag ns cwd r]
+
+theorem listPartsCd_flag : ∀ (ns : List Node) (cwd0 cwd : String) (r : Bool), flagAll r (flatListPartsCd w ns cwd0 cwd r) = true
+  | [], _, _, _ => by simp [flatListPartsCd]
+  | n :: ns, cwd0, cwd, r => by
+    simp only [flatListPartsCd]
+    split
+    · exact listPartsCd_flag ns cwd0 cwd r
+    · simp [node_flag n cwd0 r, listParts_flag ns cwd r]
 
 theorem optNode_flag : ∀ (e : Option Node) (cwd : String) (r : Bool), flagAll r (flatOptNode w e cwd r) = true
   | none, _, _ => by simp [flatOptNode]
